@@ -283,6 +283,8 @@ def r8(chk, ctx):
 
 
 def run(chk, ctx):
+    from . import generic
+    generic.definite_assignment(chk, ctx, ['task_dispatcher'], "C15.DA")   # no local is read before it is bound (UnboundLocalError = an arbitrary exception)
     r1(chk, ctx)
     r2(chk, ctx)
     r3(chk, ctx)
